@@ -19,6 +19,26 @@ CLAIMED = {
    text="Theorems C18_no_overlap, C18_no_edge_through_node (Properties/C18.v) for all finite well-formed acyclic graphs about Model/Layout.v, tied to the implementation as for C17 (graphs with >= 3 columns and equal-parity column sizes over-sampled).",
    note="Trusted: as C17.",
    design="6/C18"),
+ "C10": dict(
+   technique="Coq proof (dict-based duplicate detection = NoDup; canonical form equality = same modulo order, type sensitive) + correspondence with utils.hash_sorted_object / _validate_unique + duplicates injected into whole documents against the Coq scenario model",
+   text="Theorems C10_dup_detect, C10_dup_positions, C10_canon_eq, C10_canon_perm, C10_canon_type_sensitive, C10_canon_retyped, C10_verdict_perm, C10_unique_errors_zero, C10_composite_detect, C10_unique_errors_perm, C10_impl_never_misses (Properties/C10.v) about Model/Canon.v for all JSON values and all key lists; the exact-text converse is refuted by a witness (C10_impl_confuses_kinds) and stated. The model is tied to the code by running hash_sorted_object and _validate_unique on generated pairs/arrays, and whole documents with a duplicate in each uniqueness domain at random pair positions are compared with the Coq scenario model (Model/Rules.v unique_ids).",
+   note="Trusted: coqc kernel; corr/canon.py; SHA-1/json.dumps injectivity on canonical forms; scenario renderer. Known findings: composite duplicates under different reference spelling accepted; literal list order ignored.",
+   design="6/C10"),
+ "C11": dict(
+   technique="Coq proof (spec refinement by reflection on specs regenerated from the source + interpreter monotonicity + inertness lemmas) + correspondence of the interpreter model with the implementation's isolated structural layer",
+   text="Theorems C11_specs_refine (vm_compute against Gen/Specs.v regenerated every run), C11_damage_rejected, C11_inert_unknown, C11_inert_descriptive (Properties/C11.v) about Model/Interp.v, a Gallina interpreter of the obj_spec language, for all JSON documents. Tie: T2 dump of obj_specs/pipeline_obj_specs/patterns/enums as Coq terms (fail closed) and T3 differential run of Model/Interp.v against the implementation's structural layer (semantic functions stubbed in a harness subclass) on damaged documents; search oracle: grammar G evaluated in Coq vs the complete validator, and inert additions vs the complete validator.",
+   note="Trusted: coqc kernel; tools/gen_specs.py; corr/interp.py isolation subclass; Model/Regex.v recognisers (ASCII); Spec/Grammar.v is a hand transcription of README/property text.",
+   design="6/C11"),
+ "C19": dict(
+   technique="Coq proof over a Gallina model of the schema->graph extraction + exact correspondence (nodes, gates, labelled edge list, dicts) on generated valid schemas",
+   text="Theorems C19_builds, C19_nodes, C19_reach, C19_acyclic, C19_dicts, C19_refuses_invalid, C19_draws_otherwise, C19_wf_excludes_nesting_cycles (Properties/C19.v) about Model/Graph.v for all well-formed abstract schemas; tied to DependencyGraph by comparing the full graph state on generated valid schemas in every encoding and both spellings; the property is re-checked on the implementation's output; invalid documents are shown to be refused with validation on.",
+   note="Trusted: coqc kernel; corr/graph.py (generator, renderer, abstraction); layout coordinates come from the implementation (C17/C18). Known finding: gate alias equal to str(action id).",
+   design="6/C19"),
+ "C20": dict(
+   technique="Coq proof over a Gallina model of the board emission (request list as a function of graph, coordinates and response script) + exact correspondence of recorded request sequences under 5 response scripts per case",
+   text="Theorems C20_shapes, C20_connectors, C20_points_distinct, C20_error_aborts, C20_first_error, C20_aborts_only_on_error (Properties/C20.v) about Model/Board.v for all graphs and all response scripts; tied to generate_miro_board by stubbing requests.post in the harness process and comparing the whole request sequence and final status.",
+   note="Trusted: coqc kernel; corr/graph.py stub of requests.post and abstraction of payloads to (kind, endpoints, caption, integer position); HTTP transport and the Miro service are outside the model.",
+   design="6/C20"),
 }
 
 PENDING_REASON = "check under construction in this session; not yet claimed"
